@@ -425,7 +425,8 @@ var rdTokens = []string{"/", "\\", ".", "..", " ", "\t", "\n", "\v", "\f", "\r",
 // the 18 structural tokens used for the deeper exhaustive level of the thorough tier
 var rdCoreTokens = []string{"/", "\\", ".", "..", " ", "\t", "\n", "\v", "\f", "\r", "\xc2\xa0", "%2f", "%5c", "@", ":", "?", "#", "a"}
 
-var rdWhitelists = [][]string{nil, {"good.com"}, {".good.com"}, {"*.good.com"}, {"good.com:8443"}, {"good.com:*"}, {"[::1]:*"}, {".good.com", ""}, {"", ":8443"}}
+var rdWhitelists = [][]string{nil, {"good.com"}, {".good.com"}, {"*.good.com"}, {"good.com:8443"}, {"good.com:*"}, {"[::1]:*"}, {".good.com", ""}, {"", ":8443"},
+	{tHost, "good.com"}} // (the deployment's own host on the whitelist: absolute URLs to itself are allowed — and stay absolute)
 
 var rdCorpus = []string{
 	"", "/", "/foo", "/foo/bar?x=1&next=/baz#frag", "//evil.com", "/\\evil.com", "/\t/evil.com", "/\n/evil.com", "/\r\n\t/evil.com",
@@ -442,6 +443,8 @@ var rdCorpus = []string{
 	"https://good.com/#\t", "http://good.com/%zz", "http://good.com/#%zz", "https://user:pw@good.com/", "https://us%er@good.com/", "https://us er@good.com/",
 	"/reports/view?from=2024&to=2025", "/a?x='1'&y=\"2\"", "/s?q=a&amp;b=c", "/t?lt=<&gt=>", "/oauth2-docs/guide?page=2", "/oauth2_clients/42/edit", "/oauth2.html", "/oauth2proxy/status", "/oauth", "/docs/oauth2/intro", "/oauth2x/y?z=1", "/o", "/oauth2~",
 	"/#/../\\evil.com/login", "/a#/../../\\evil.com", "/#/..//evil.com", "/a?x#/../..//evil.com", "/a;/../\\evil.com", "/#/../\t/evil.com",
+	// an allowed host followed by a path that would name ANOTHER host if the scheme and host were ever dropped
+	"https://good.com//evil.com/login", "https://good.com/\\evil.com/x", "https://good.com///evil.com", "https://" + tHost + "//evil.com/login", "http://" + tHost + "/\\evil.com", "https://" + tHost + "/ok?x=1",
 	// '?', '~', '>' at every alignment of a 3-byte group (a state or hidden field carried in another alphabet cuts or alters them)
 	"/a?x=1", "/ab?x=1", "/abc?x=1", "/a~b", "/ab~c", "/abc~d", "/p?q=>>>&r=???&s=~~~", "/wiki/Main_Page?action=history", "/pq?~>?~>", "/pqr?~>?~>?", "/pqrs?~>?~>??",
 	"/oauth2/callback", "/oauth2/sign_in", "/oauth2", "/oauth2x", "/\xc2\xa0/evil.com", "/\xe2\x80\xa8/evil.com", "/\xe9", "/a\xff/../b", "/x/../../y", "a/b/../c", "../x", "./x", "x//y/",
